@@ -211,8 +211,41 @@ def exits_only(fn, cfg, start, head):
         if t[0] == "call" and (t[1].get("def") or "").endswith("process::exit"):
             kinds.add("exit")
             continue
+        if t[0] == "call" and t[4] is None and t[1].get("local") and _PROGRAM is not None:
+            # a call that does not come back: a local helper (`fn quit() -> !`) that ends in process::exit is an exit
+            g = _PROGRAM.fns.get(t[1].get("id"))
+            if g is not None and _ends_in_exit(g):
+                kinds.add("exit")
+                continue
         st.extend(cfg.succ[b])
     return kinds
+
+
+_PROGRAM = None
+
+
+def _ends_in_exit(g, depth=0):
+    for bi, t in M.calls_in(g):
+        d = t[1].get("def") or ""
+        if d.endswith("process::exit"):
+            return True
+        if depth < 2 and t[1].get("local") and _PROGRAM is not None:
+            h = _PROGRAM.fns.get(t[1].get("id"))
+            if h is not None and h is not g and _ends_in_exit(h, depth + 1):
+                return True
+    return False
+
+
+def reads_input_call(P, t, depth=0):
+    """a call that reads a line of input: read_line itself, or a local function that (transitively) calls it"""
+    d = t[1].get("def") or ""
+    if READ_LINE.search(d):
+        return True
+    if depth < 2 and t[1].get("local"):
+        g = P.fns.get(t[1].get("id"))
+        if g is not None and g["name"].startswith("driver::"):
+            return any(reads_input_call(P, tt, depth + 1) for _, tt in M.calls_in(g))
+    return False
 
 
 def promoted_string(fn, const):
@@ -235,6 +268,8 @@ def promoted_string(fn, const):
 def run(ctx, chk):
     chk.explanation = EXPL
     P = ctx.program
+    global _PROGRAM
+    _PROGRAM = P
     chk.rule("C20.R1", "every stdin read loop has an end-of-input exit", floor=1)
     chk.rule("C20.R2", "prompt words: n/next return, q/quit exit, anything else is answered and the prompt repeats", floor=5)
     chk.rule("C20.R3", "the prompt path cannot write the machine or the instruction index", floor=4)
@@ -278,7 +313,19 @@ def run(ctx, chk):
                               f"buffer): at end of input read_line returns Ok(0) forever and the loop spins", where,
                               witness="stdin closed (or exhausted) while the prompt is waiting")
     if nloops == 0:
-        chk.undecided_("C20.R1", "read-loops", "no loop containing read_line found in the binary crate")
+        # the read may sit in a helper called from the loop: which of its outcomes means "end of input" is then a
+        # property of the helper's result type, not decided here
+        helper_loops = 0
+        for f in binm["fns"]:
+            cfg = M.CFG(f)
+            loops = natural_loops(cfg)
+            for bi, t in M.calls_in(f):
+                if bi in cfg.reach and not READ_LINE.search(t[1].get("def") or "") and reads_input_call(P, t) and any(bi in b for b in loops.values()):
+                    helper_loops += 1
+        if helper_loops:
+            chk.ok("C20.R1", "read-loops:through-helper", "the loop reads through a local helper; its end-of-input outcome is matched in the loop (R2 decides where it leads)", nontrivial=False)
+        else:
+            chk.undecided_("C20.R1", "read-loops", "no loop containing read_line found in the binary crate")
     # ---------------- R2: prompt words
     ui = P.find("bin", "driver::user_interface::user_interface")
     if ui is None:
@@ -286,7 +333,8 @@ def run(ctx, chk):
     else:
         cfg = M.CFG(ui)
         loops = natural_loops(cfg)
-        rl = [bi for bi, t in M.calls_in(ui) if READ_LINE.search(t[1].get("def") or "")]
+        rl = [bi for bi, t in M.calls_in(ui) if reads_input_call(P, t)]
+        direct_read = bool(rl) and READ_LINE.search(M.term(ui["blocks"][rl[0]])[1].get("def") or "")
         head = None
         if rl:
             ins = [(h, b) for h, b in loops.items() if rl[0] in b]
@@ -327,7 +375,7 @@ def run(ctx, chk):
                 chk.violation("C20.R2", "user_interface", f"word-{w}-ambiguous", f"'{w}' can end in {sorted(k)}", where)
         # only n/next, q/quit, end of input and a failing read may leave the prompt: a test that is also true for other
         # input (emptiness of the trimmed / case-folded line is true for a blank line) must lead back to the prompt
-        if head is not None and rl:
+        if head is not None and rl and direct_read:
             kinds = {}
             body_ = next(b for h, b in loops.items() if h == head)
             tests_, _buf = eof_tests(ui, cfg, Defs(ui), body_, rl[0], kinds=kinds)
